@@ -194,3 +194,92 @@ pub fn kings_base(t: &mut Tape) -> Pos {
     p.fullmove = 1 + t.pick(50) as u32;
     p
 }
+
+/// Two different legal positions with the *same* 64-bit key. Up to two optional men per square (a
+/// white or a black pawn on ranks 2-7, a white or a black knight on the back ranks) give about a
+/// hundred switches for 64 key bits; every vector beyond the rank of the basis yields a dependency,
+/// and the first one that splits into two legal positions of reachable material is used.
+pub fn full_collision_pair(t: &mut Tape, base: &Pos) -> Option<Pair> {
+    let wk = base.king_sq(true)?;
+    let bk = base.king_sq(false)?;
+    let mut sw: Vec<(Sq, Pc)> = vec![];
+    for s in 0..64u8 {
+        if base.board[s as usize].is_some() {
+            continue;
+        }
+        let r = rank_of(s);
+        for white in [true, false] {
+            let k = if white { bk } else { wk };
+            if r == 0 || r == 7 {
+                let (df, dr) = ((file_of(k) - file_of(s)).abs(), (rank_of(k) - r).abs());
+                if !((df == 1 && dr == 2) || (df == 2 && dr == 1)) {
+                    sw.push((s, Pc::new(white, Kind::N)));
+                }
+            } else if !(rank_of(k) == r + if white { 1 } else { -1 } && (file_of(k) - file_of(s)).abs() == 1) {
+                sw.push((s, Pc::new(white, Kind::P)));
+            }
+        }
+    }
+    for i in (1..sw.len()).rev() {
+        let j = t.pick(i + 1);
+        sw.swap(i, j);
+    }
+    sw.truncate(120);
+    let mut basis: Vec<Option<(u64, u128)>> = vec![None; 64];
+    let mut tries = 0;
+    for (j, (s, pc)) in sw.iter().enumerate() {
+        let mut v = word(*pc, *s);
+        let mut comb = 1u128 << j;
+        while v != 0 {
+            let lead = 63 - v.leading_zeros() as usize;
+            match basis[lead] {
+                Some((bv, bc)) => {
+                    v ^= bv;
+                    comb ^= bc;
+                }
+                None => {
+                    basis[lead] = Some((v, comb));
+                    break;
+                }
+            }
+        }
+        if v != 0 {
+            continue;
+        }
+        // a dependency: try to split it
+        tries += 1;
+        let mut a = base.clone();
+        let mut b = base.clone();
+        let mut turn = [[false; 6]; 2];
+        let mut differing = 0;
+        let mut ok = true;
+        let members: Vec<usize> = (0..sw.len()).filter(|i| comb >> i & 1 == 1).collect();
+        for &i in &members {
+            let (s, pc) = sw[i];
+            differing += 1;
+            // the other switch of this square, if it is a member too, must go to the other position
+            let twin = members.iter().any(|&m| m != i && sw[m].0 == s);
+            let to_b = if twin {
+                // white man to `a`, black man to `b`
+                !pc.white
+            } else {
+                let g = &mut turn[usize::from(pc.white)][pc.kind as usize % 6];
+                *g = !*g;
+                *g
+            };
+            let tgt = if to_b { &mut b } else { &mut a };
+            if tgt.board[s as usize].is_some() {
+                ok = false;
+                break;
+            }
+            tgt.board[s as usize] = Some(pc);
+        }
+        if ok && a.validate().is_ok() && b.validate().is_ok() && a.board != b.board && key_of(&a) == key_of(&b) {
+            return Some(Pair { a, b, mask_name: "all_64_bits", mask: !0, differing });
+        }
+        if tries > 40 {
+            break;
+        }
+    }
+    None
+}
